@@ -19,6 +19,15 @@ CLAIMS = {
    note="kind level only (values are irrelevant to the property)", ref="4/C17"),
 }
 
+CLAIMS.update({
+ "C04": dict(cat="proof", tech="emission-term grammar check of every emitter leaf against the pickletools argument readers, safe and unsafe configurations",
+   text="Finite exhaustive check: T1 (as_u8 of all 68 OpcodeKinds, extracted by interpreting the MIR) equals the reference code table and is injective; for every emission leaf of every opcode arm (incl. emit_int/emit_string/emit_bytes/emit_global variants, both with unsafe mutations/type-confusion rewrites enabled and disabled) the appended byte-part sequence is derivable from the reference reader of that opcode (fixed-width ints and endianness, length prefix == payload length and fits, quoted/escaped STRING literal via the concrete escape chain on every charset element, decimal/float Display literals, newline-free payloads), domain clauses (EXT codes >= 1 and EXT4 <= 2^31-1, non-negative memo indices), collapse-phase/PROTO/FRAME/STOP sites.",
+   note="trusted: Rust Display of ints/f64 is accepted by Python int()/float(); String is UTF-8; reference/opcodes.json", ref="4/C04"),
+ "C05": dict(cat="proof", tech="table extraction + opcode provenance per protocol over all emission leaves",
+   text="For all P and all k in T2[P] (table evaluated from the static's MIR) proto(k) <= P; every opcode decoded from every safe emission leaf, collapse-phase step and header write has proto <= P for each protocol the leaf applies to; PROTO P is the first write for P>=2, absent for P<2, never emitted in the body (typestate on proto_emitted); every byte of protocol-0 leaves is 7-bit.",
+   note="trusted: proto column of reference/opcodes.json", ref="4/C05"),
+})
+
 NA_DEFAULT = "check not built yet (build in progress; see DESIGN.md section 6 build order)"
 NA = {}
 
